@@ -474,7 +474,10 @@ carquet_status_t carquet_batch_reader_next(
             int64_t values_read = carquet_column_read_batch(
                 col_reader, col_data->data, rows_to_read, def_levels, NULL);
 
-            if (values_read < 0) {
+            /* Fewer rows than the batch holds means a page load failed part-way (the column
+             * reader then returns what it has): a batch whose columns differ in length must
+             * not be handed out as CARQUET_OK. */
+            if (values_read < 0 || values_read != rows_to_read) {
                 read_error = true;
                 free(def_levels);
                 continue;
